@@ -206,3 +206,252 @@ Proof.
     destruct (xinside_pos _ _ Hq) as (p' & E & Hp'). rewrite E.
     destruct (IH p' Hp') as [F L]. split; [constructor; assumption | rewrite L; reflexivity].
 Qed.
+
+(** ** the hand-written model of Model/Tracking.v equals the generated definitions *)
+
+Lemma u2s_small z : 0 <= z < 2 ^ 31 -> u2s z = z.
+Proof. intros H. unfold u2s. destruct (z <? 2 ^ 31) eqn:E; [reflexivity|]. apply Z.ltb_ge in E. lia. Qed.
+
+Lemma wrap32_nonneg z : 0 <= wrap32 z.
+Proof. unfold wrap32. apply Z.mod_pos_bound. reflexivity. Qed.
+
+Lemma xpair_eq (a b c d : Qc) : a = c -> b = d -> (XF a, XF b) = (XF c, XF d).
+Proof. intros -> ->. reflexivity. Qed.
+
+Theorem gen_kick_x_is_model n offs p :
+  2 <= n < 2 ^ 31 -> inside n p ->
+  gen_kick_x n n offs (px p) (py p) = xpos_of (kick_applyTo true n offs p).
+Proof.
+  intros Hn (X0 & X1 & Y0 & Y1).
+  assert (Hn' : 2 <= n < 2 ^ 32) by (change (2 ^ 31) with 2147483648 in Hn; change (2 ^ 32) with 4294967296; lia).
+  destruct (wrap32_coord n (py p) (proj2 Hn) Y0 Y1) as [W B].
+  unfold gen_kick_x, kick_applyTo, xpos_of, kick_coord, kick_displacement, f2u. cbv zeta. cbn [px py].
+  rewrite gen_kick_x_clamp_fin by exact Hn'. rewrite !W.
+  rewrite (wrap32_small (Qcfloor (py p) + 1))
+    by (change (2 ^ 31) with 2147483648 in Hn; change (2 ^ 32) with 4294967296; lia).
+  apply xpair_eq; [|reflexivity]. apply (f_equal (clamp_grid n)).
+  destruct (Qcfloor (py p) + 1 <? n); [|reflexivity].
+  rewrite ?Qcz_1. ring.
+Qed.
+
+Theorem gen_kick_y_is_model n offs p :
+  2 <= n < 2 ^ 31 -> inside n p ->
+  gen_kick_y n n offs (px p) (py p) = xpos_of (kick_applyTo false n offs p).
+Proof.
+  intros Hn (X0 & X1 & Y0 & Y1).
+  assert (Hn' : 2 <= n < 2 ^ 32) by (change (2 ^ 31) with 2147483648 in Hn; change (2 ^ 32) with 4294967296; lia).
+  destruct (wrap32_coord n (px p) (proj2 Hn) X0 X1) as [W B].
+  unfold gen_kick_y, kick_applyTo, xpos_of, kick_coord, kick_displacement, f2u. cbv zeta. cbn [px py].
+  rewrite gen_kick_y_clamp_fin by exact Hn'. rewrite !W.
+  rewrite (wrap32_small (Qcfloor (px p) + 1))
+    by (change (2 ^ 31) with 2147483648 in Hn; change (2 ^ 32) with 4294967296; lia).
+  apply xpair_eq; [reflexivity|]. apply (f_equal (clamp_grid n)).
+  destruct (Qcfloor (px p) + 1 <? n); [|reflexivity].
+  rewrite ?Qcz_1. ring.
+Qed.
+
+Lemma in_zrange j n : In j (zrange n) -> 0 <= j < n.
+Proof.
+  unfold zrange. intros H. apply in_map_iff in H. destruct H as (k & <- & Hk).
+  apply in_seq in Hk. lia.
+Qed.
+
+Lemma qsum_map_ext (f g : Z -> Qc) n :
+  (forall j, 0 <= j < n -> f j = g j) -> qsum (map f (zrange n)) = qsum (map g (zrange n)).
+Proof. intros H. f_equal. apply map_ext_in. intros j Hj. apply H. apply in_zrange. exact Hj. Qed.
+
+Lemma floor_coord n c :
+  n < 2 ^ 31 -> (0 <= c)%Qc -> (c <= Qcz (n - 1))%Qc -> wrap32 (Qcfloor c) = Qcfloor c /\ 0 <= Qcfloor c <= n - 1.
+Proof.
+  intros Hn H0 H1. destruct (wrap32_coord n c Hn H0 H1) as [W B]. split; [|exact B].
+  apply wrap32_small. change (2 ^ 31) with 2147483648 in Hn. change (2 ^ 32) with 4294967296. lia.
+Qed.
+
+(** tracking model 1.  [ip] is the number of stencil points (3 or 4 in the code); the table index
+    `yi*_ip+j` is computed in `unsigned int` and must not wrap *)
+Theorem gen_fp1_is_model n ip H D e1 zb0 zb1 noise p :
+  2 <= n < 2 ^ 31 -> 0 <= ip -> (n + 1) * ip <= 2 ^ 32 -> inside n p ->
+  gen_fp_approximation1 n n ip H D e1 zb0 zb1 noise (px p) (py p) = xpos_of (fp_approx1 n ip H p).
+Proof.
+  intros Hn Hip Hsz (X0 & X1 & Y0 & Y1).
+  assert (Hn' : 2 <= n < 2 ^ 32) by (change (2 ^ 31) with 2147483648 in Hn; change (2 ^ 32) with 4294967296; lia).
+  destruct (floor_coord n (py p) (proj2 Hn) Y0 Y1) as [W B].
+  unfold gen_fp_approximation1, fp_approx1, fp_offset1, xpos_of, f2u. cbv zeta. cbn [px py].
+  rewrite gen_fp1_clamp_fin by exact Hn'. rewrite !W.
+  apply xpair_eq; [reflexivity|]. apply (f_equal (clamp_grid n)).
+  replace (Z.min (Qcfloor (py p)) n) with (Qcfloor (py p)) by lia.
+  apply (f_equal (fun s => (py p + s)%Qc)).
+  apply qsum_map_ext. intros j Hj. cbv zeta.
+  assert (0 <= Qcfloor (py p) * ip <= n * ip) by nia.
+  rewrite (wrap32_small (Qcfloor (py p) * ip)) by nia.
+  rewrite (wrap32_small (Qcfloor (py p) * ip + j)) by nia.
+  ring.
+Qed.
+
+(** tracking model 2: final statement from the charge and the moment *)
+Lemma fp2_final n y m c m' c' : 2 <= n < 2 ^ 32 -> m = m' -> c = c' ->
+  gen_fp_approximation2_clamp n n (xadd (XF y) (xdivq m c)) =
+  XF (if Qc_eq_dec c' 0 then (if Qcltb 0 m' then Qcz (n - 1) else 1%Qc) else clamp_grid n (y + m' / c')%Qc).
+Proof.
+  intros Hn <- <-. unfold xdivq. destruct (Qc_eq_dec c 0) as [Ec|Ec].
+  - destruct (Qc_eq_dec m 0) as [Em|Em].
+    + subst m. cbn [xadd]. replace (Qcltb 0 0) with false by reflexivity.
+      unfold gen_fp_approximation2_clamp. rewrite ?(wrap32_nm1 _ Hn), ?Qcz_1.
+      pose proof (one_le_hi _ (proj1 Hn)). clamp_cases; qc_order.
+    + destruct (Qcltb 0 m) eqn:L; cbn [xadd];
+        unfold gen_fp_approximation2_clamp; rewrite ?(wrap32_nm1 _ Hn), ?Qcz_1;
+        pose proof (one_le_hi _ (proj1 Hn)); clamp_cases; qc_order.
+  - cbn [xadd]. apply gen_fp2_clamp_fin. exact Hn.
+Qed.
+
+(** tracking model 2 = the hand-written model with its explicit 0/0 and x/0 cases.  The cell index
+    `xi*_ysize + h.index` is computed in `unsigned int` (n^2 must fit) and `h.index` is converted to
+    `int` (table indices below 2^31) *)
+Theorem gen_fp2_is_model n ip H D e1 zb0 zb1 noise p :
+  2 <= n < 2 ^ 31 -> n * n <= 2 ^ 31 -> (forall i, 0 <= fst (H i) < 2 ^ 31) -> inside n p ->
+  gen_fp_approximation2 n n ip H D e1 zb0 zb1 noise (px p) (py p) = xpos_of (fp_approx2 n ip H D p).
+Proof.
+  intros Hn Hnn HH (X0 & X1 & Y0 & Y1).
+  assert (Hn' : 2 <= n < 2 ^ 32) by (change (2 ^ 31) with 2147483648 in Hn; change (2 ^ 32) with 4294967296; lia).
+  destruct (floor_coord n (px p) (proj2 Hn) X0 X1) as [Wx Bx].
+  destruct (floor_coord n (py p) (proj2 Hn) Y0 Y1) as [Wy By].
+  unfold gen_fp_approximation2, fp_approx2, fp_charge2, fp_moment2, fp_cell2, xpos_of, f2u, f2s. cbv zeta. cbn [px py].
+  rewrite !(wrap32_nm1 n Hn'), !Wx.
+  rewrite !(u2s_small (n - 1)) by (change (2 ^ 31) with 2147483648 in *; lia).
+  rewrite !(u2s_small (Z.min (Qcfloor (px p)) (n - 1))) by (change (2 ^ 31) with 2147483648 in *; lia).
+  set (xi := Z.min (Qcfloor (px p)) (n - 1)). set (yi := Z.min (Qcfloor (py p)) (n - 1)).
+  assert (Hxi : 0 <= xi <= n - 1) by (unfold xi; lia).
+  assert (Hxn : 0 <= xi * n <= (n - 1) * n) by nia.
+  change (2 ^ 31) with 2147483648 in *. 
+  rewrite !(wrap32_small xi) by (change (2 ^ 32) with 4294967296; lia).
+  rewrite !(wrap32_small (xi * n)) by (change (2 ^ 32) with 4294967296; nia).
+  apply (f_equal (fun t => (XF (px p), t))).
+  apply fp2_final; [exact Hn' | |]; apply qsum_map_ext; intros j Hj; cbv zeta;
+    pose proof (HH (yi * ip + j)) as Hh;
+    rewrite !(wrap32_small (xi * n + fst (H (yi * ip + j)))) by (change (2 ^ 32) with 4294967296; nia);
+    rewrite ?(u2s_small (fst (H (yi * ip + j)))) by exact Hh; ring.
+Qed.
+
+(** the stochastic model: damping of the distance to the zero bin of the ENERGY axis ([zb1]; the zero
+    bin of the position axis [zb0] does not occur), the drawn number subtracted *)
+Theorem gen_stoch_is_model n ip H D e1 zb0 zb1 noise p :
+  2 <= n < 2 ^ 32 ->
+  gen_fp_stochastic n n ip H D e1 zb0 zb1 noise (px p) (py p) = xpos_of (fp_stoch n e1 zb1 noise p).
+Proof.
+  intros Hn. unfold gen_fp_stochastic, fp_stoch, fp_stoch_raw, xpos_of. cbv zeta. cbn [px py].
+  rewrite gen_stoch_clamp_fin by exact Hn.
+  apply xpair_eq; [reflexivity|]. apply (f_equal (clamp_grid n)). ring.
+Qed.
+
+(** hypotheses under which an operation of the hand-written model and its generated counterpart are
+    the same function (sizes that keep the `unsigned int` index arithmetic from wrapping) *)
+Definition op_sizes_ok (n : Z) (o : Tracking.op) : Prop :=
+  match o with
+  | OpFP1 ip _ => 0 <= ip /\ (n + 1) * ip <= 2 ^ 32
+  | OpFP2 _ H _ => n * n <= 2 ^ 31 /\ (forall i, 0 <= fst (H i) < 2 ^ 31)
+  | _ => True
+  end.
+
+(** the enum values the switch of FokkerPlanckMap::applyTo dispatches on are the model's four kinds *)
+Lemma gen_fp_enum_is_model : gen_fp_enum = [(0, 0%nat); (1, 1%nat); (2, 2%nat); (3, 3%nat)].
+Proof. reflexivity. Qed.
+
+Theorem gen_applyTo_is_model n zb0 o k p :
+  2 <= n < 2 ^ 31 -> inside n p -> op_sizes_ok n o ->
+  gen_applyTo n (gop_of_op zb0 o) k p = xpos_of (applyTo n o k p).
+Proof.
+  intros Hn Hp Ho.
+  assert (Hn' : 2 <= n < 2 ^ 32) by (change (2 ^ 31) with 2147483648 in Hn; change (2 ^ 32) with 4294967296; lia).
+  destruct o as [d offs| | |ip H|ip H D|e1 yc noise]; cbn [gop_of_op gen_applyTo applyTo].
+  - destruct d; [apply gen_kick_x_is_model | apply gen_kick_y_is_model]; assumption.
+  - reflexivity.
+  - reflexivity.
+  - destruct Ho as [Hip Hsz]. unfold gen_fp_applyTo. cbn [Z.eqb Pos.eqb]. apply gen_fp1_is_model; assumption.
+  - destruct Ho as [Hnn HH]. unfold gen_fp_applyTo. cbn [Z.eqb Pos.eqb]. apply gen_fp2_is_model; assumption.
+  - unfold gen_fp_applyTo. cbn [Z.eqb Pos.eqb]. apply gen_stoch_is_model. exact Hn'.
+Qed.
+
+(** ** loading the tracking file: PhaseSpace::x / y land on the grid for every number read *)
+
+Ltac load_cases n Hn :=
+  match goal with |- context [xdivq ?a ?b] => generalize (xdivq a b) end;
+  let v := fresh "v" in intros v;
+  assert (L0 : (0 <= Qcz n - Qcz 1)%Qc) by (rewrite Qcz_sub; rewrite <- Qcz_0; apply Qcz_le; lia);
+  rewrite ?Qcz_0 in *;
+  destruct v; clamp_cases; (eexists; split; [reflexivity|]); rewrite <- ?Qcz_sub; split; qc_order.
+
+Lemma gen_ps_x_on_grid n a0 d0 a1 d1 c : 1 <= n -> xin_grid n (gen_ps_x n n a0 d0 a1 d1 c).
+Proof. intros Hn. unfold gen_ps_x, xin_grid. load_cases n Hn. Qed.
+
+Lemma gen_ps_y_on_grid n a0 d0 a1 d1 c : 1 <= n -> xin_grid n (gen_ps_y n n a0 d0 a1 d1 c).
+Proof. intros Hn. unfold gen_ps_y, xin_grid. load_cases n Hn. Qed.
+
+(** what PhaseSpace::x computes for a usable axis: the coordinate in cells, cut to [0, n-1];
+    x() reads axis 0 and y() axis 1 *)
+Lemma gen_ps_x_value n a0 d0 a1 d1 c : 1 <= n -> d0 <> 0%Qc ->
+  gen_ps_x n n a0 d0 a1 d1 c = XF (std_min (std_max 0 ((c - a0) / d0)) (Qcz (n - 1)))%Qc.
+Proof.
+  intros Hn Hd. unfold gen_ps_x. destruct (xdivq_cases (c - a0) d0) as [E _]. rewrite (E Hd).
+  rewrite Qcz_sub, ?Qcz_0. unfold std_min, std_max. clamp_cases; qc_order.
+Qed.
+Lemma gen_ps_y_value n a0 d0 a1 d1 c : 1 <= n -> d1 <> 0%Qc ->
+  gen_ps_y n n a0 d0 a1 d1 c = XF (std_min (std_max 0 ((c - a1) / d1)) (Qcz (n - 1)))%Qc.
+Proof.
+  intros Hn Hd. unfold gen_ps_y. destruct (xdivq_cases (c - a1) d1) as [E _]. rewrite (E Hd).
+  rewrite Qcz_sub, ?Qcz_0. unfold std_min, std_max. clamp_cases; qc_order.
+Qed.
+
+(** main(): the first number of a line goes through x() (position axis), the second through y() *)
+Lemma gen_load_columns : gen_load_first = (LdX, Col1) /\ gen_load_second = (LdY, Col2).
+Proof. split; reflexivity. Qed.
+
+Theorem gen_load_inside n a0 d0 a1 d1 c1 c2 : 1 <= n -> xinside n (gen_load n a0 d0 a1 d1 c1 c2).
+Proof.
+  intros Hn. unfold gen_load, gen_load_coord.
+  destruct gen_load_first as [f1 k1], gen_load_second as [f2 k2]. cbn [fst snd].
+  assert (A : forall f k, xin_grid n (match f with
+                                      | LdX => gen_ps_x n n a0 d0 a1 d1 (match k with Col1 => c1 | Col2 => c2 end)
+                                      | LdY => gen_ps_y n n a0 d0 a1 d1 (match k with Col1 => c1 | Col2 => c2 end)
+                                      end)).
+  { intros f k. destruct f; [apply gen_ps_x_on_grid | apply gen_ps_y_on_grid]; exact Hn. }
+  destruct (A f1 k1) as (x & -> & X0 & X1). destruct (A f2 k2) as (y & -> & Y0 & Y1).
+  exists x, y. split; [reflexivity|]. unfold inside; cbn [px py]. tauto.
+Qed.
+
+(** ** HDF5File::appendTracks: position from axis 0 at trunc(x), energy from axis 1 at trunc(y) *)
+Theorem gen_append_is_model ax p n :
+  n < 2 ^ 31 -> inside n p ->
+  gen_append ax p = (ax 0 (track_index (px p)), ax 1 (track_index (py p))).
+Proof.
+  intros Hn (X0 & X1 & Y0 & Y1). unfold gen_append, append_record, append_entry, f2u, track_index.
+  destruct (wrap32_coord n (px p) Hn X0 X1) as [Wx _]. destruct (wrap32_coord n (py p) Hn Y0 Y1) as [Wy _].
+  destruct (Qctrunc_nonneg (px p) X0) as [Ex _]. destruct (Qctrunc_nonneg (py p) Y0) as [Ey _].
+  cbn [gen_append_first gen_append_second fst snd coord_of gen_axis_of].
+  rewrite Wx, Wy, Ex, Ey. reflexivity.
+Qed.
+
+Corollary gen_append_matches_appendTracks axq axp ps n :
+  n < 2 ^ 31 -> Forall (inside n) ps ->
+  map (gen_append (fun a => if a =? 0 then axq else axp)) ps = appendTracks axq axp ps.
+Proof.
+  intros Hn H. unfold appendTracks. apply map_ext_in. intros p Hp.
+  rewrite Forall_forall in H. rewrite (gen_append_is_model _ p n Hn (H p Hp)). reflexivity.
+Qed.
+
+(** ** main(): every applyToAll(trackme) directly follows apply() of the same map *)
+Lemma gen_track_events_ok : track_events_ok gen_track_events = true.
+Proof. reflexivity. Qed.
+
+(** what the checker guarantees: the events come in pairs apply(m); applyToAll(m) *)
+Lemma track_events_ok_sound l :
+  track_events_ok l = true -> exists ms, l = flat_map (fun m => [TApply m; TTrack m]) ms.
+Proof.
+  revert l. fix IH 1. intros l. destruct l as [|e r]; cbn [track_events_ok].
+  - intros _. exists []. reflexivity.
+  - destruct e as [m|m]; [|discriminate]. destruct r as [|e' r']; [discriminate|].
+    destruct e' as [m'|m']; [discriminate|].
+    intros H. apply andb_true_iff in H. destruct H as [E H].
+    destruct (IH r' H) as (ms & ->).
+    assert (m = m') by (destruct m, m'; cbn in E; congruence). subst m'.
+    exists (m :: ms). reflexivity.
+Qed.
